@@ -474,22 +474,32 @@ theorem checkShape_closed (fx : Fix) (ctx : Ctx) (o : Obj) (c : Chk) : PushOK o 
   | array a elem size =>
     cases o with
     | arr xs =>
+      have fin : ∀ er, PushOK (Obj.arr xs) (Chk.array a elem size)
+          (if anyShortcut fx er = true then ofPred (checkPred a.pred (Obj.arr xs))
+           else ofEntRes fx a (Obj.arr xs) (EntRes.ok (List.map (fun e => (e, elem)) xs.vals))) := by
+        intro er
+        split
+        · exact pushOK_ofPred _ _ _
+        · apply pushOK_ofEntRes
+          intro ps hps
+          simp only [EntRes.ok.injEq] at hps
+          subst hps
+          refine ⟨?_, by simp [objKids]⟩
+          intro p hp
+          simp only [List.mem_map] at hp
+          obtain ⟨e, he, rfl⟩ := hp
+          exact ⟨by simpa [objKids] using he, by simp [chkKids]⟩
       simp only [checkShape]
       split
-      · exact pushOK_fail _ _ _
       · split
-        · exact pushOK_hard _ _ _
+        · exact pushOK_fail _ _ _
         · split
-          · exact pushOK_ofPred _ _ _
-          · apply pushOK_ofEntRes
-            intro ps hps
-            simp only [EntRes.ok.injEq] at hps
-            subst hps
-            refine ⟨?_, by simp [objKids]⟩
-            intro p hp
-            simp only [List.mem_map] at hp
-            obtain ⟨e, he, rfl⟩ := hp
-            exact ⟨by simpa [objKids] using he, by simp [chkKids]⟩
+          · exact pushOK_hard _ _ _
+          · exact fin _
+      · simp only [Bool.false_eq_true, if_false]
+        split
+        · exact pushOK_hard _ _ _
+        · exact fin _
     | _ => exact pushOK_fail _ _ _
   | het a elems =>
     cases o with
@@ -561,5 +571,659 @@ theorem checkShape_closed (fx : Fix) (ctx : Ctx) (o : Obj) (c : Chk) : PushOK o 
               simp [objKids, chkKids] at l1 l2 ⊢
               omega
     | _ => exact pushOK_fail _ _ _
+
+section
+variable (fx : Fix) (g : Graph) (ctx : Ctx) (o0 : Obj) (c0 : Chk)
+
+/-- the pair lies in the universe of the case -/
+def InU (p : Pend) : Prop := p.1 ∈ objU g o0 ∧ p.2 ∈ chkU ctx c0
+
+theorem processCheck_closed (o : Obj) (tc c : Chk) (ho : o ∈ objU g o0) (htc : tc ∈ chkU ctx c0)
+    (hc : c ∈ chkU ctx c0) :
+    (∀ p, processCheck fx g ctx o tc c = .ret p → InU g ctx o0 c0 p) ∧
+    (∀ ps, processCheck fx g ctx o tc c = .push ps →
+      (∀ p ∈ ps, InU g ctx o0 c0 p) ∧ ps.length ≤ Wo g o0 + Wc ctx c0) ∧
+    (∀ ps, processCheck fx g ctx o tc c = .pushRaw ps → ps = [(o, c)]) := by
+  have hshape := checkShape_closed fx ctx o c
+  have shapeU : ∀ ps, checkShape fx ctx o c = .push ps →
+      (∀ p ∈ ps, InU g ctx o0 c0 p) ∧ ps.length ≤ Wo g o0 + Wc ctx c0 := by
+    intro ps hps
+    have := hshape.1 ps hps
+    refine ⟨fun p hp => ⟨objU_kids g o0 o p.1 ho (this.1 p hp).1, chkU_kids ctx c0 c p.2 hc (this.1 p hp).2⟩, ?_⟩
+    have w1 := objU_width g o0 o ho
+    have w2 := chkU_width ctx c0 c hc
+    omega
+  unfold processCheck
+  split
+  · simp
+  · split
+    · simp
+    · rename_i a b _
+      split
+      · refine ⟨?_, by simp, by simp⟩
+        intro p hp
+        simp only [Act.ret.injEq] at hp
+        subst hp
+        exact ⟨objU_chase g o0 _ _ ho, chkU_allowInd ctx c0 c hc⟩
+      · split
+        · rename_i t ht
+          refine ⟨?_, by simp, by simp⟩
+          intro p hp
+          simp only [Act.ret.injEq] at hp
+          subst hp
+          exact ⟨objU_lookup g o0 _ _ ht, chkU_allowInd ctx c0 c hc⟩
+        · refine ⟨?_, by simp, by simp⟩
+          intro p hp
+          simp only [Act.ret.injEq] at hp
+          subst hp
+          refine ⟨null_mem_objU g o0, ?_⟩
+          split
+          · exact chkU_allowInd ctx c0 c hc
+          · exact htc
+    · simp
+    · exact ⟨fun p hp => absurd hp (hshape.2.1 p), shapeU, fun ps hps => absurd hps (hshape.2.2 ps)⟩
+
+end
+
+/-! ### the potential -/
+
+def itemCostAt (i : Nat) (p : Pend) : Nat :=
+  match p.2 with
+  | .disj a set => (set.chks.length - i) + 2 + (if a = Attr.dflt then 0 else 1)
+  | _ => 1
+
+def pendCost : List Pend → Nat
+  | [] => 0
+  | p :: t => itemCostAt 0 p + pendCost t
+
+def entCost (e : Ent) : Nat :=
+  1 + match e.pending with
+      | [] => 0
+      | p :: t => itemCostAt e.idx p + pendCost t
+
+def todoCost : List Ent → Nat
+  | [] => 0
+  | e :: t => entCost e + todoCost t
+
+def phi (A K : Nat) (todo : List Ent) (ex : List Pend) : Nat := A * (K - ex.length) + todoCost todo
+
+theorem itemCostAt_le (i : Nat) (p : Pend) : itemCostAt i p ≤ itemCostAt 0 p := by
+  unfold itemCostAt; split <;> omega
+
+theorem itemCostAt_pos (i : Nat) (p : Pend) : 1 ≤ itemCostAt i p := by
+  unfold itemCostAt; split <;> omega
+
+theorem entCost_le (e : Ent) : entCost e ≤ 1 + pendCost e.pending := by
+  unfold entCost
+  cases e.pending with
+  | nil => simp [pendCost]
+  | cons p t => have := itemCostAt_le e.idx p; simp only [pendCost]; omega
+
+theorem entCost_pos (e : Ent) : 1 ≤ entCost e := by unfold entCost; omega
+
+theorem nodup_length_le {α : Type} [DecidableEq α] :
+    ∀ (l L : List α), l.Nodup → (∀ a ∈ l, a ∈ L) → l.length ≤ L.length
+  | [], L, _, _ => by simp
+  | a :: l, L, hn, hs => by
+    have ha : a ∈ L := hs a (by simp)
+    have hn' := List.nodup_cons.mp hn
+    have : l.length ≤ (L.erase a).length := by
+      apply nodup_length_le l (L.erase a) hn'.2
+      intro b hb
+      have hne : b ≠ a := fun h => hn'.1 (h ▸ hb)
+      exact (List.mem_erase_of_ne hne).mpr (hs b (by simp [hb]))
+    have h2 := List.length_erase_of_mem ha
+    have h3 : 0 < L.length := List.length_pos_of_mem ha
+    simp only [List.length_cons]
+    omega
+
+theorem unwind_cost : ∀ (t t' : List Ent), unwind t = some t' →
+    todoCost t' ≤ todoCost t ∧ (∀ e ∈ t', e ∈ t)
+  | [], t', h => by simp [unwind] at h
+  | e :: rest, t', h => by
+    simp only [unwind] at h
+    have hrec : unwind rest = some t' → todoCost t' ≤ todoCost (e :: rest) ∧ (∀ x ∈ t', x ∈ e :: rest) := by
+      intro h
+      have := unwind_cost rest t' h
+      exact ⟨by simp only [todoCost]; omega, fun x hx => by simp [this.2 x hx]⟩
+    split at h
+    · split at h
+      · injection h with h; subst h; exact ⟨Nat.le_refl _, fun x hx => hx⟩
+      · exact hrec h
+    · exact hrec h
+
+section
+variable (fx : Fix) (g : Graph) (ctx : Ctx) (o0 : Obj) (c0 : Chk)
+
+def PendU (t : List Ent) : Prop := ∀ e ∈ t, ∀ p ∈ e.pending, InU g ctx o0 c0 p
+
+structure Inv (todo : List Ent) (ex : List Pend) : Prop where
+  nodup : ex.Nodup
+  exU : ∀ p ∈ ex, InU g ctx o0 c0 p
+  pendU : PendU g ctx o0 c0 todo
+
+theorem pendU_cons (e : Ent) (rest : List Ent) :
+    PendU g ctx o0 c0 (e :: rest) ↔ (∀ p ∈ e.pending, InU g ctx o0 c0 p) ∧ PendU g ctx o0 c0 rest := by
+  simp [PendU]
+
+theorem itemCost_bound (p : Pend) (h : InU g ctx o0 c0 p) : itemCostAt 0 p ≤ Wc ctx c0 + 3 := by
+  obtain ⟨x, d⟩ := p
+  cases d with
+  | disj a set =>
+    have := chkU_width ctx c0 _ h.2
+    simp only [chkKids] at this
+    simp only [itemCostAt]
+    split <;> omega
+  | _ => simp [itemCostAt]
+
+theorem pendCost_bound : ∀ (l : List Pend), (∀ p ∈ l, InU g ctx o0 c0 p) →
+    pendCost l ≤ l.length * (Wc ctx c0 + 3)
+  | [], _ => by simp [pendCost]
+  | p :: t, h => by
+    have h1 := itemCost_bound g ctx o0 c0 p (h p (by simp))
+    have h2 := pendCost_bound t (fun q hq => h q (by simp [hq]))
+    simp only [pendCost, List.length_cons, Nat.add_mul]
+    omega
+
+theorem entCost_ge (e : Ent) (h : ∀ p ∈ e.pending, InU g ctx o0 c0 p) :
+    1 + pendCost e.pending ≤ entCost e + Wc ctx c0 := by
+  unfold entCost
+  cases hp : e.pending with
+  | nil => simp [pendCost]
+  | cons p t =>
+    have hin := h p (by simp [hp])
+    obtain ⟨x, d⟩ := p
+    simp only [pendCost]
+    cases d with
+    | disj a set =>
+      have := chkU_width ctx c0 _ hin.2
+      simp only [chkKids] at this
+      simp only [itemCostAt]
+      split <;> omega
+    | _ => simp [itemCostAt]
+
+theorem mem_of_haveExamined_false (ex : List Pend) (p : Pend) (h : haveExamined fx ex p = false) : p ∉ ex := by
+  intro hm
+  have : haveExamined fx ex p = true := by
+    simp only [haveExamined, List.any_eq_true]
+    refine ⟨p, hm, ?_⟩
+    simp [memoEq]
+  rw [this] at h; exact absurd h (by simp)
+
+theorem ex_room (ex : List Pend) (p : Pend) (hn : ex.Nodup) (hex : ∀ q ∈ ex, InU g ctx o0 c0 q)
+    (hp : InU g ctx o0 c0 p) (hnot : p ∉ ex) : ex.length + 1 ≤ (pairU g ctx o0 c0).length := by
+  have := nodup_length_le (p :: ex) (pairU g ctx o0 c0) (List.nodup_cons.mpr ⟨hnot, hn⟩) (by
+    intro q hq
+    simp only [List.mem_cons] at hq
+    rcases hq with hq | hq
+    · subst hq; exact (mem_pairU g ctx o0 c0 _).mpr hp
+    · exact (mem_pairU g ctx o0 c0 _).mpr (hex q hq))
+  simpa using this
+
+theorem costA_eq : costA g ctx o0 c0 =
+    1 + (Wo g o0 + Wc ctx c0) * (Wc ctx c0 + 3) + 2 * (Wc ctx c0 + 3) := by
+  simp only [costA, Nat.add_mul]; omega
+
+theorem phi_examine (todo : List Ent) (ex : List Pend) (p : Pend)
+    (h : ex.length + 1 ≤ (pairU g ctx o0 c0).length) :
+    phi (costA g ctx o0 c0) (pairU g ctx o0 c0).length todo (p :: ex) + costA g ctx o0 c0
+      = phi (costA g ctx o0 c0) (pairU g ctx o0 c0).length todo ex := by
+  simp only [phi, List.length_cons]
+  have : (pairU g ctx o0 c0).length - ex.length = ((pairU g ctx o0 c0).length - (ex.length + 1)) + 1 := by omega
+  rw [this, Nat.mul_succ]; omega
+
+theorem issue_ok (s : St) (o : Obj) (tc : Chk)
+    (hinv : Inv g ctx o0 c0 s.todo s.examined) (hp : InU g ctx o0 c0 (o, tc)) :
+    ∀ st', issue fx g ctx s o tc = .inl st' →
+      Inv g ctx o0 c0 st'.todo st'.examined ∧
+      phi (costA g ctx o0 c0) (pairU g ctx o0 c0).length st'.todo st'.examined
+        ≤ phi (costA g ctx o0 c0) (pairU g ctx o0 c0).length s.todo s.examined := by
+  intro st' h
+  unfold issue at h
+  cases hr : resolve ctx tc with
+  | none => simp [hr] at h
+  | some c =>
+    simp only [hr] at h
+    split at h
+    · injection h with h; subst h; exact ⟨hinv, Nat.le_refl _⟩
+    · rename_i hne
+      have hne' : haveExamined fx s.examined (o, tc) = false := by
+        cases hh : haveExamined fx s.examined (o, tc) <;> simp_all
+      have hnot := mem_of_haveExamined_false fx s.examined (o, tc) hne'
+      have room := ex_room g ctx o0 c0 s.examined (o, tc) hinv.nodup hinv.exU hp hnot
+      have hphi := fun todo => phi_examine g ctx o0 c0 todo s.examined (o, tc) room
+      have hc := chkU_resolve ctx c0 tc c hp.2 hr
+      have pc := processCheck_closed fx g ctx o0 c0 o tc c hp.1 hp.2 hc
+      have hnd : ((o, tc) :: s.examined).Nodup := List.nodup_cons.mpr ⟨hnot, hinv.nodup⟩
+      have hexU : ∀ q ∈ (o, tc) :: s.examined, InU g ctx o0 c0 q := by
+        intro q hq
+        simp only [List.mem_cons] at hq
+        rcases hq with hq | hq
+        · subst hq; exact hp
+        · exact hinv.exU q hq
+      have hA := costA_eq g ctx o0 c0
+      cases hpc : processCheck fx g ctx o tc c with
+      | hard k => simp [hpc] at h
+      | fail k =>
+        simp only [hpc] at h
+        injection h with h; subst h
+        exact ⟨⟨hnd, hexU, hinv.pendU⟩, by have := hphi s.todo; simp only []; omega⟩
+      | pass =>
+        simp only [hpc] at h
+        injection h with h; subst h
+        exact ⟨⟨hnd, hexU, hinv.pendU⟩, by have := hphi s.todo; simp only []; omega⟩
+      | ret p =>
+        simp only [hpc] at h
+        have hpU := pc.1 p hpc
+        cases htd : s.todo with
+        | nil => simp [htd] at h
+        | cons e rest =>
+          simp only [htd] at h
+          injection h with h; subst h
+          have hpend := hinv.pendU
+          rw [htd, pendU_cons] at hpend
+          refine ⟨⟨hnd, hexU, ?_⟩, ?_⟩
+          · simp only [pendU_cons]
+            refine ⟨?_, hpend.2⟩
+            intro q hq
+            simp only [List.mem_cons] at hq
+            rcases hq with hq | hq
+            · subst hq; exact hpU
+            · exact hpend.1 q hq
+          · have h1 := hphi (e :: rest)
+            have h2 := entCost_ge g ctx o0 c0 e hpend.1
+            have h3 := itemCost_bound g ctx o0 c0 p hpU
+            have h4 := itemCostAt_le e.idx p
+            simp only [phi, todoCost] at h1 ⊢
+            have h5 : entCost { e with pending := p :: e.pending } = 1 + (itemCostAt e.idx p + pendCost e.pending) := by
+              simp [entCost]
+            rw [h5]
+            simp only [List.length_cons] at h1 ⊢
+            omega
+      | push ps =>
+        simp only [hpc] at h
+        injection h with h; subst h
+        have hps := pc.2.1 ps hpc
+        unfold pushChecks
+        simp only []
+        generalize hset : ps.filter (fun p => !haveExamined fx ((o, tc) :: s.examined) p) = set
+        have hsetU : ∀ q ∈ set, InU g ctx o0 c0 q := by
+          intro q hq; rw [← hset] at hq; exact hps.1 q (List.mem_filter.mp hq).1
+        have hsetL : set.length ≤ Wo g o0 + Wc ctx c0 := by
+          have : set.length ≤ ps.length := by rw [← hset]; exact List.length_filter_le _ _
+          omega
+        cases set with
+        | nil =>
+          exact ⟨⟨hnd, hexU, hinv.pendU⟩, by have := hphi s.todo; simp only []; omega⟩
+        | cons q qs =>
+          simp only []
+          refine ⟨⟨hnd, hexU, ?_⟩, ?_⟩
+          · simp only [pendU_cons]
+            exact ⟨hsetU, hinv.pendU⟩
+          · have h1 := hphi s.todo
+            have h2 := pendCost_bound g ctx o0 c0 (q :: qs) hsetU
+            have h3 : (q :: qs).length * (Wc ctx c0 + 3) ≤ (Wo g o0 + Wc ctx c0) * (Wc ctx c0 + 3) :=
+              Nat.mul_le_mul_right _ hsetL
+            simp only [phi, todoCost] at h1 ⊢
+            have h5 : entCost ⟨q :: qs, 0, none⟩ = 1 + pendCost (q :: qs) := by
+              simp [entCost, pendCost]
+            rw [h5]
+            simp only [List.length_cons] at h1 h2 h3 ⊢
+            omega
+      | pushRaw ps =>
+        simp only [hpc] at h
+        injection h with h; subst h
+        have hps := pc.2.2 ps hpc
+        subst hps
+        have hcU : InU g ctx o0 c0 (o, c) := ⟨hp.1, hc⟩
+        refine ⟨⟨hnd, hexU, ?_⟩, ?_⟩
+        · simp only [pendU_cons]
+          refine ⟨?_, hinv.pendU⟩
+          intro q hq
+          simp only [List.mem_singleton] at hq
+          subst hq; exact hcU
+        · have h1 := hphi s.todo
+          have h3 := itemCost_bound g ctx o0 c0 (o, c) hcU
+          simp only [phi, todoCost] at h1 ⊢
+          have h5 : entCost ⟨[(o, c)], 0, none⟩ = 1 + itemCostAt 0 (o, c) := by
+            simp [entCost, pendCost]
+          rw [h5]
+          simp only [List.length_cons] at h1 ⊢
+          have : 0 ≤ (Wo g o0 + Wc ctx c0) * (Wc ctx c0 + 3) := Nat.zero_le _
+          omega
+
+theorem unwindOr_ok (s : St) (t : List Ent) (k : EK) (n : Nat)
+    (hnd : s.examined.Nodup) (hex : ∀ p ∈ s.examined, InU g ctx o0 c0 p)
+    (hpend : PendU g ctx o0 c0 t)
+    (hcost : phi (costA g ctx o0 c0) (pairU g ctx o0 c0).length t s.examined + 1 ≤ n) :
+    ∀ st', unwindOr s t k = .inl st' →
+      Inv g ctx o0 c0 st'.todo st'.examined ∧
+      phi (costA g ctx o0 c0) (pairU g ctx o0 c0).length st'.todo st'.examined + 1 ≤ n := by
+  intro st' h
+  unfold unwindOr at h
+  cases hu : unwind t with
+  | none => simp [hu] at h
+  | some t' =>
+    simp only [hu] at h
+    injection h with h; subst h
+    have := unwind_cost t t' hu
+    refine ⟨⟨hnd, hex, fun e he => hpend e (this.2 e he)⟩, ?_⟩
+    simp only [phi] at hcost ⊢
+    omega
+
+theorem issue_step (s : St) (o : Obj) (tc : Chk) (n : Nat)
+    (hinv : Inv g ctx o0 c0 s.todo s.examined) (hp : InU g ctx o0 c0 (o, tc))
+    (hcost : phi (costA g ctx o0 c0) (pairU g ctx o0 c0).length s.todo s.examined + 1 ≤ n) :
+    ∀ st', issue fx g ctx s o tc = .inl st' →
+      Inv g ctx o0 c0 st'.todo st'.examined ∧
+      phi (costA g ctx o0 c0) (pairU g ctx o0 c0).length st'.todo st'.examined + 1 ≤ n := by
+  intro st' h
+  have := issue_ok fx g ctx o0 c0 s o tc hinv hp st' h
+  exact ⟨this.1, by omega⟩
+
+theorem cost_drop (e e' : Ent) (p : Pend) (ptl : List Pend) (hp : e.pending = p :: ptl)
+    (hp' : e'.pending = ptl) : entCost e' + 1 ≤ entCost e := by
+  have h1 := entCost_le e'
+  have h2 := itemCostAt_pos e.idx p
+  rw [hp'] at h1
+  simp only [entCost, hp] at h1 ⊢
+  omega
+
+theorem step_ok (htr : fx.trail = false) (st0 : St) (hinv : Inv g ctx o0 c0 st0.todo st0.examined) :
+    ∀ st', step fx g ctx st0 = .inl st' →
+      Inv g ctx o0 c0 st'.todo st'.examined ∧
+      phi (costA g ctx o0 c0) (pairU g ctx o0 c0).length st'.todo st'.examined + 1
+        ≤ phi (costA g ctx o0 c0) (pairU g ctx o0 c0).length st0.todo st0.examined := by
+  unfold step
+  generalize hst : (if st0.fresh = true then { st0 with steps := st0.steps + 1, fresh := false } else st0) = s
+  have hs1 : st0.todo = s.todo := by subst hst; split <;> rfl
+  have hs2 : st0.examined = s.examined := by subst hst; split <;> rfl
+  rw [hs1, hs2] at hinv ⊢
+  clear hst hs1 hs2
+  simp only []
+  cases htd : s.todo with
+  | nil => cases s.err <;> simp
+  | cons e rest =>
+    rw [htd] at hinv
+    have hpend := hinv.pendU
+    rw [pendU_cons] at hpend
+    have key : ∀ (s' : St) (o : Obj) (tc : Chk), s'.examined = s.examined →
+        PendU g ctx o0 c0 s'.todo → InU g ctx o0 c0 (o, tc) →
+        todoCost s'.todo + 1 ≤ todoCost (e :: rest) →
+        ∀ st', issue fx g ctx s' o tc = .inl st' →
+          Inv g ctx o0 c0 st'.todo st'.examined ∧
+          phi (costA g ctx o0 c0) (pairU g ctx o0 c0).length st'.todo st'.examined + 1
+            ≤ phi (costA g ctx o0 c0) (pairU g ctx o0 c0).length (e :: rest) s.examined := by
+      intro s' o tc hE hP hIn hC
+      apply issue_step fx g ctx o0 c0 s' o tc _ ⟨hE ▸ hinv.nodup, hE ▸ hinv.exU, hP⟩ hIn
+      rw [hE]; simp only [phi]; omega
+    have keyU : ∀ (t : List Ent) (k : EK), PendU g ctx o0 c0 t →
+        todoCost t + 1 ≤ todoCost (e :: rest) →
+        ∀ st', unwindOr s t k = .inl st' →
+          Inv g ctx o0 c0 st'.todo st'.examined ∧
+          phi (costA g ctx o0 c0) (pairU g ctx o0 c0).length st'.todo st'.examined + 1
+            ≤ phi (costA g ctx o0 c0) (pairU g ctx o0 c0).length (e :: rest) s.examined := by
+      intro t k hP hC
+      apply unwindOr_ok g ctx o0 c0 s t k _ hinv.nodup hinv.exU hP
+      simp only [phi]; omega
+    have hrest : ∀ (s' : St) (e' : Ent), restore fx s' e' = s' := by
+      intro s' e'; simp [restore, htr]
+    simp only []
+    cases hp : e.pending with
+    | nil =>
+      simp only []
+      cases herr : s.err with
+      | none =>
+        intro st' h
+        simp only [Sum.inl.injEq] at h
+        subst h
+        refine ⟨⟨hinv.nodup, hinv.exU, hpend.2⟩, ?_⟩
+        have := entCost_pos e
+        simp only [phi, todoCost]; omega
+      | some k =>
+        simp only []
+        have hu : unwindOr s (e :: rest) k = unwindOr s rest k := by
+          simp [unwindOr, unwind, hp]
+        rw [hu]
+        apply keyU rest k hpend.2
+        have := entCost_pos e
+        simp only [todoCost]; omega
+    | cons p ptl =>
+      obtain ⟨obj, tc⟩ := p
+      rw [hp] at hpend
+      have hInFront : InU g ctx o0 c0 (obj, tc) := hpend.1 _ (by simp)
+      have hPtl : ∀ q ∈ ptl, InU g ctx o0 c0 q := fun q hq => hpend.1 q (by simp [hq])
+      -- dropping the front item
+      have dropP : ∀ (i : Nat) (sn : Option (List Pend)),
+          PendU g ctx o0 c0 ({ e with pending := ptl, idx := i, snap := sn } :: rest) := by
+        intro i sn; rw [pendU_cons]; exact ⟨hPtl, hpend.2⟩
+      have dropC : ∀ (i : Nat) (sn : Option (List Pend)),
+          todoCost ({ e with pending := ptl, idx := i, snap := sn } :: rest) + 1 ≤ todoCost (e :: rest) := by
+        intro i sn
+        have := cost_drop e { e with pending := ptl, idx := i, snap := sn } (obj, tc) ptl hp rfl
+        simp only [todoCost]; omega
+      have single : ∀ (hnd : ∀ a set, tc ≠ .disj a set) st',
+          (match s.err with
+            | some k => unwindOr s ({ e with pending := ptl } :: rest) k
+            | none => issue fx g ctx { s with todo := { e with pending := ptl } :: rest } obj tc) = .inl st' →
+          Inv g ctx o0 c0 st'.todo st'.examined ∧
+          phi (costA g ctx o0 c0) (pairU g ctx o0 c0).length st'.todo st'.examined + 1
+            ≤ phi (costA g ctx o0 c0) (pairU g ctx o0 c0).length (e :: rest) s.examined := by
+        intro _ st'
+        cases s.err with
+        | some k => exact keyU _ k (dropP e.idx e.snap) (dropC e.idx e.snap) st'
+        | none =>
+          refine key _ obj tc ?_ ?_ hInFront ?_ st'
+          · rfl
+          · exact dropP e.idx e.snap
+          · exact dropC e.idx e.snap
+      simp only []
+      cases tc with
+      | disj a set =>
+        simp only []
+        have hkids : ∀ c ∈ set.chks, InU g ctx o0 c0 (obj, c) := fun c hc =>
+          ⟨hInFront.1, chkU_kids ctx c0 _ c hInFront.2 (by simpa [chkKids] using hc)⟩
+        split
+        · rename_i hidx
+          cases herr : s.err with
+          | none =>
+            intro st' h
+            simp only [Sum.inl.injEq] at h
+            subst h
+            refine ⟨⟨hinv.nodup, hinv.exU, dropP 0 none⟩, ?_⟩
+            have := dropC 0 none
+            simp only [phi]; omega
+          | some k =>
+            simp only []
+            cases hget : set.chks[e.idx]? with
+            | none =>
+              simp only [hrest]
+              exact keyU _ k (dropP _ none) (dropC _ none)
+            | some c =>
+              simp only [hrest]
+              have hc : c ∈ set.chks := List.mem_of_getElem? hget
+              have hlt : e.idx < set.chks.length := by
+                have := List.getElem?_eq_some_iff.mp hget
+                exact this.1
+              refine key _ obj c ?_ ?_ (hkids c hc) ?_
+              · rfl
+              · simp only [pendU_cons]; exact ⟨by simpa using hpend.1, hpend.2⟩
+              · simp only [todoCost, entCost, hp, itemCostAt]
+                split <;> omega
+        · rename_i hidx
+          cases herr : s.err with
+          | some k =>
+            simp only []
+            exact keyU _ k (dropP e.idx e.snap) (dropC e.idx e.snap)
+          | none =>
+            simp only []
+            cases hch : set.chks with
+            | nil => simp
+            | cons c0' cs =>
+              simp only []
+              have hc : c0' ∈ set.chks := by simp [hch]
+              split
+              · rename_i hg
+                have ha : a ≠ Attr.dflt := by
+                  simp only [Bool.and_eq_true, bne_iff_ne] at hg; exact hg.2
+                have sp := chkU_split ctx c0 a set hInFront.2
+                refine key _ obj (.any a) ?_ ?_ ⟨hInFront.1, sp.1 ha⟩ ?_
+                · rfl
+                · simp only [pendU_cons]
+                  refine ⟨?_, hpend.2⟩
+                  intro q hq
+                  simp only [List.mem_cons] at hq
+                  rcases hq with hq | hq
+                  · subst hq; exact ⟨hInFront.1, sp.2⟩
+                  · exact hPtl q hq
+                · simp only [todoCost, entCost, hp, itemCostAt]
+                  simp only [ha, if_false, if_true]
+                  omega
+              · refine key _ obj c0' ?_ ?_ (hkids c0' hc) ?_
+                · rfl
+                · simp only [pendU_cons]; exact ⟨by simpa using hpend.1, hpend.2⟩
+                · have h0 : e.idx = 0 := by omega
+                  simp only [todoCost, entCost, hp, itemCostAt, h0, hch, List.length_cons]
+                  split <;> omega
+      | named n => exact single (by intro a set h; cases h)
+      | any a => exact single (by intro a set h; cases h)
+      | prim a p => exact single (by intro a set h; cases h)
+      | array a el sz => exact single (by intro a set h; cases h)
+      | het a es => exact single (by intro a set h; cases h)
+      | dict a es => exact single (by intro a set h; cases h)
+      | dictStar a es so sc => exact single (by intro a set h; cases h)
+      | stream a es => exact single (by intro a set h; cases h)
+
+/-- a single step never produces the out-of-fuel marker -/
+theorem step_inr (st : St) : ∀ r, step fx g ctx st = .inr r → r.1 ≠ .outOfFuel := by
+  have key : ∀ (s : St) o tc, ∀ r, issue fx g ctx s o tc = .inr r → r.1 ≠ .outOfFuel := by
+    intro s o tc r h
+    unfold issue at h
+    cases hr : resolve ctx tc with
+    | none => simp only [hr] at h; injection h with h; subst h; simp
+    | some c =>
+      simp only [hr] at h
+      split at h
+      · simp at h
+      · cases hpc : processCheck fx g ctx o tc c with
+        | hard k => simp only [hpc] at h; injection h with h; subst h; simp
+        | fail k => simp [hpc] at h
+        | pass => simp [hpc] at h
+        | ret p =>
+          simp only [hpc] at h
+          cases htd : s.todo with
+          | nil => simp only [htd] at h; injection h with h; subst h; simp
+          | cons e rest => simp [htd] at h
+        | push ps => simp [hpc] at h
+        | pushRaw ps => simp [hpc] at h
+  have keyU : ∀ (s : St) (t : List Ent) (k : EK), ∀ r, unwindOr s t k = .inr r → r.1 ≠ .outOfFuel := by
+    intro s t k r h
+    unfold unwindOr at h
+    cases hu : unwind t with
+    | none => simp only [hu] at h; injection h with h; subst h; simp
+    | some t' => simp [hu] at h
+  unfold step
+  generalize (if st.fresh = true then { st with steps := st.steps + 1, fresh := false } else st) = s
+  simp only []
+  cases htd : s.todo with
+  | nil =>
+    simp only []
+    cases s.err <;> (intro r h; injection h with h; subst h; simp)
+  | cons e rest =>
+    simp only []
+    cases hp : e.pending with
+    | nil =>
+      simp only []
+      cases herr : s.err with
+      | none => intro r h; simp at h
+      | some k => exact keyU s _ k
+    | cons p ptl =>
+      obtain ⟨obj, tc⟩ := p
+      simp only []
+      have single : ∀ r,
+          (match s.err with
+            | some k => unwindOr s ({ e with pending := ptl } :: rest) k
+            | none => issue fx g ctx { s with todo := { e with pending := ptl } :: rest } obj tc) = .inr r →
+          r.1 ≠ .outOfFuel := by
+        cases s.err with
+        | some k => exact keyU s _ k
+        | none => exact key _ obj tc
+      cases tc with
+      | disj a set =>
+        simp only []
+        split
+        · cases herr : s.err with
+          | none => intro r h; simp at h
+          | some k =>
+            simp only []
+            cases set.chks[e.idx]? with
+            | none => exact keyU _ _ k
+            | some c => exact key _ obj c
+        · cases herr : s.err with
+          | some k => exact keyU s _ k
+          | none =>
+            simp only []
+            cases set.chks with
+            | nil => intro r h; injection h with h; subst h; simp
+            | cons c0' cs =>
+              simp only []
+              split
+              · exact key _ obj _
+              · exact key _ obj c0'
+      | named n => exact single
+      | any a => exact single
+      | prim a p => exact single
+      | array a el sz => exact single
+      | het a es => exact single
+      | dict a es => exact single
+      | dictStar a es so sc => exact single
+      | stream a es => exact single
+
+theorem run_terminates (htr : fx.trail = false) :
+    ∀ (n : Nat) (st : St), Inv g ctx o0 c0 st.todo st.examined →
+      phi (costA g ctx o0 c0) (pairU g ctx o0 c0).length st.todo st.examined < n →
+      (run fx g ctx n st).1 ≠ .outOfFuel
+  | 0, st, _, h => by omega
+  | n+1, st, hinv, h => by
+    simp only [run]
+    cases hs : step fx g ctx st with
+    | inr r => exact step_inr fx g ctx st r hs
+    | inl st' =>
+      simp only []
+      have := step_ok fx g ctx o0 c0 htr st hinv st' hs
+      exact run_terminates htr n st' this.1 (by omega)
+
+end
+
+theorem pairU_length (g : Graph) (ctx : Ctx) (o : Obj) (c : Chk) :
+    (pairU g ctx o c).length = (objU g o).length * (chkU ctx c).length := by
+  unfold pairU
+  induction objU g o with
+  | nil => simp
+  | cons x t ih => simp only [List.flatMap_cons, List.length_append, List.length_map, ih, List.length_cons,
+                     Nat.succ_mul]; omega
+
+/-- C09: the machine finishes within `workBound` iterations of the `get_next_check` loop, for every
+    graph, context, object and specification, in every configuration with a monotone memo -/
+theorem checkTypeFuel_terminates (fx : Fix) (htr : fx.trail = false) (g : Graph) (ctx : Ctx) (o : Obj)
+    (chk : Chk) : (checkTypeFuel fx g ctx (workBound fx g ctx o chk) o chk).1 ≠ .outOfFuel := by
+  unfold checkTypeFuel workBound
+  cases hr : resolve ctx chk with
+  | none => simp
+  | some rep =>
+    simp only []
+    have hIn : InU g ctx o (rep.norm fx) (o, rep.norm fx) :=
+      ⟨by simp [objU, objSubs_self], base_sub_chkU ctx _ _ (by simp [baseU, chkSubs_self])⟩
+    apply run_terminates fx g ctx o (rep.norm fx) htr
+    · refine ⟨by simp [initSt], by simp [initSt], ?_⟩
+      simp only [initSt, pendU_cons]
+      refine ⟨?_, by simp [PendU]⟩
+      intro p hp
+      simp only [List.mem_singleton] at hp
+      subst hp; exact hIn
+    · have := itemCost_bound g ctx o (rep.norm fx) _ hIn
+      simp only [initSt, phi, todoCost, entCost, pendCost, bound, List.length_nil, Nat.sub_zero,
+        ← pairU_length]
+      omega
 
 end Parsley.TC.Term
